@@ -303,7 +303,7 @@ impl UWorld {
             }
         }
         if let URes::Panicked(msg) = &res {
-            let p = self.sc.profile.clone();
+            let p = if msg.contains(" at dsim/src/") || msg.contains(" at simcore/") { "HARNESS".to_string() } else { self.sc.profile.clone() };
             let d = format!("{:?} panicked: {}", self.ops[opi].op, msg);
             self.violate(&p, "unexpected_panic", d);
         }
@@ -687,7 +687,9 @@ fn oracle_on_return(w: &mut UWorld, opi: usize) -> Option<Violation> {
                             if o.destroyed.is_none() {
                                 // a get() that had obtained its permit before close() ran may
                                 // still pick it up; the pool itself must not keep it
-                                let caller_has_it = matches!(o.loc, Loc::Held(_) | Loc::Raw(_) | Loc::Taking(_));
+                                // (or it is already on its next journey: picked up by an admitted
+                                // get and being returned / taken again by that caller)
+                                let caller_has_it = !matches!(o.loc, Loc::Pool);
                                 let queued = usnapshot(w).map(|(_, q)| q.contains(&id));
                                 if !caller_has_it && queued == Some(true) {
                                     return v("returned_after_close_dropped", format!("object #{id} was returned after close() returned and is still kept by the pool"));
